@@ -320,8 +320,15 @@ def run(facts):
             for p, pdesc in sorted(pb.items()):
                 if w == p and (b.did, w) not in e4.stmt_writes:
                     continue
-                if w == p or cfg.reaches(w, p):
+                if w == p:
                     viol.append((w, wdesc, p, pdesc))
+                elif cfg.reaches(w, p):
+                    # confirm with the values the path itself fixes: `let reused = {..; true}; if !reused { may_panic() }`
+                    # never runs the panicking branch after the writes of the `true` path
+                    from .flow import feasible_paths_to
+                    fp = feasible_paths_to(b, p, limit=3000)
+                    if len(fp) >= 3000 or any(w in path for path in fp):
+                        viol.append((w, wdesc, p, pdesc))
         key0 = b.id
         if not viol:
             res.ok(key0, b.loc(), "%d state-write sites, %d contract-panic sites, no write reaches a panic" % (len(wb), len(pb)), nontrivial=bool(wb and pb))
